@@ -11,6 +11,7 @@
 (*          (the records of `vh run-programs` joined with `vh ast-dump`)   *)
 (*   BUDGET nodes the evaluator may visit per program                      *)
 (*   KNOWN  comma-separated regions of recorded findings ("callee-order")  *)
+(*   PROFILE "1": report the evaluation rules each program exercised       *)
 (* Every program is its own initial state; the one step from it evaluates  *)
 (* Semantics!Run on the program's AST and judges the recorded runs, so     *)
 (* TLC's workers evaluate programs in parallel.                            *)
@@ -32,6 +33,7 @@ Lib == JsonDeserialize(IOEnv.LIB)
 N == Len(Rec)
 Budget == atoi(IOEnv.BUDGET)
 Known == IOEnv.KNOWN
+Profile == IOEnv.PROFILE = "1"
 
 Has(r, f) == f \in DOMAIN r
 
@@ -63,20 +65,23 @@ FirstDiff(xs, ys) ==
 
 Program(r) == [m \in DOMAIN r.mods |-> Lib[r.mods[m]]]
 
-Verdict(r, v, why, n) == [id |-> r.id, verdict |-> v, why |-> why, n |-> n]
+Verdict(r, v, why, spec) ==
+  IF Profile THEN [id |-> r.id, verdict |-> v, why |-> why, n |-> spec.n, seen |-> spec.seen]
+  ELSE [id |-> r.id, verdict |-> v, why |-> why, n |-> spec.n]
+NoRun == [n |-> 0, seen |-> {}]
 
 Judge(r) ==
-  IF r.front # "accepted" THEN Verdict(r, "skipped", "front:" \o r.front, 0)
+  IF r.front # "accepted" THEN Verdict(r, "skipped", "front:" \o r.front, NoRun)
   ELSE
-  LET spec == Run(Program(r), r.entry, Budget, FALSE) IN
-  IF spec.end.k = "impl" THEN Verdict(r, "excluded", spec.end.m, spec.n)
-  ELSE IF spec.end.k \in {"stuck", "unsupported"} THEN Verdict(r, "tool", spec.end.k \o ":" \o spec.end.m, spec.n)
-  ELSE IF WasmBuilds(r) = {} THEN Verdict(r, "tool", "no-artefact", spec.n)
-  ELSE IF \E bd \in WasmBuilds(r) : CutOff("wasm", r.builds[bd].wasm) THEN Verdict(r, "excluded", "wasm-cutoff", spec.n)
-  ELSE IF AllWasmAgree(r, spec) THEN Verdict(r, "ok", IF TsAgrees(r, spec) THEN "" ELSE "ts-differs", spec.n)
+  LET spec == Run(Program(r), r.entry, Budget, FALSE, Profile) IN
+  IF spec.end.k = "impl" THEN Verdict(r, "excluded", spec.end.m, spec)
+  ELSE IF spec.end.k \in {"stuck", "unsupported"} THEN Verdict(r, "tool", spec.end.k \o ":" \o spec.end.m, spec)
+  ELSE IF WasmBuilds(r) = {} THEN Verdict(r, "tool", "no-artefact", spec)
+  ELSE IF \E bd \in WasmBuilds(r) : CutOff("wasm", r.builds[bd].wasm) THEN Verdict(r, "excluded", "wasm-cutoff", spec)
+  ELSE IF AllWasmAgree(r, spec) THEN Verdict(r, "ok", IF TsAgrees(r, spec) THEN "" ELSE "ts-differs", spec)
   ELSE
     \* the recorded deviation: the callee / receiver of a call is evaluated before the arguments
-    LET alt == Run(Program(r), r.entry, Budget, TRUE)
+    LET alt == Run(Program(r), r.entry, Budget, TRUE, FALSE)
         bad == CHOOSE bd \in WasmBuilds(r) : ~SameRun(spec, "wasm", r.builds[bd].wasm)
         run == r.builds[bad].wasm
         detail == [build |-> bad, line |-> FirstDiff(spec.out, run.out),
